@@ -245,6 +245,8 @@ struct StrList *pg_parse_array(const char *pgarr, CxMem *cx)
 				c = *s++;
 				if (c == '"')
 					break;
+				else if (c == 0)
+					goto failed;
 				else if (c == '\\') {
 					if (!*s) goto failed;
 					s++;
